@@ -254,6 +254,14 @@ def l3_run(carve):
                 ("coalesce(s, literal) as key", lambda: t >> pdt.mutate(k=pdt.coalesce(t.s, "n/a%")) >> pdt.group_by(pdt.C.k) >> pdt.summarize(n=pdt.count()),
                  lambda out: sorted(out.rows()) == sorted({("n/a%" if v is None else v): sum(1 for w in sv if w == v) for v in sv}.items())),
             ]
+            # bare / typed literals themselves as keys: a number is data, never a column position (GROUP BY 2 / ORDER BY 2)
+            for lname, mklit, val in (("2", lambda: 2, 2), ("lit(2)", lambda: pdt.lit(2), 2), ("lit(2, Int64)", lambda: pdt.lit(2, pdt.Int64()), 2), ("lit('h', String)", lambda: pdt.lit("h", pdt.String()), "h"), ("lit('s')", lambda: pdt.lit("s"), "s")):
+                cases += [
+                    (f"mutate(k={lname}) >> group_by(k) >> summarize", lambda mklit=mklit: t >> pdt.mutate(k=mklit()) >> pdt.group_by(pdt.C.k) >> pdt.summarize(n=pdt.count()), lambda out, val=val: out.rows() == [(val, len(sv))]),
+                    (f"mutate(k={lname}) >> arrange(k, h.descending())", lambda mklit=mklit: t >> pdt.mutate(k=mklit()) >> pdt.arrange(pdt.C.k, t.h.descending()) >> pdt.select(t.h), lambda out: out["h"].to_list() == list(range(6, -1, -1))),
+                    (f"row_number(partition_by={lname} column, arrange=h)", lambda mklit=mklit: t >> pdt.mutate(k=mklit()) >> pdt.mutate(r=pdt.row_number(partition_by=pdt.C.k, arrange=t.h)) >> pdt.select(t.h, pdt.C.r), lambda out: sorted(out.rows()) == [(h, h + 1) for h in range(7)]),
+                    (f"filter(s == {lname} column)", lambda mklit=mklit: t >> pdt.mutate(k=mklit()) >> pdt.filter(pdt.C.k.cast(pdt.String()) == t.s) >> pdt.select(t.h), lambda out, val=val: sorted(out["h"].to_list()) == [h for h, v in enumerate(sv) if v == str(val)]),
+                ]
             for label, mk, ok in cases:
                 n += 1
                 try:
